@@ -30,8 +30,10 @@ type c04Input struct {
 	StubImpl   bool      `json:"stubImpl"`
 	WithResets bool      `json:"withResets"`
 	SkipEnsure bool      `json:"skipEnsure"`
-	StubLevel  string    `json:"stubLevel"`  // top | package | interface
-	ResetLevel string    `json:"resetLevel"` // top | package | interface
+	StubLevel  string    `json:"stubLevel"`  // top | package | interface | unset (written nowhere: the default, false)
+	ResetLevel string    `json:"resetLevel"` // top | package | interface | unset
+	// an unrelated recursive package with a listed sub-package sets the opposite of every option
+	Decoy bool `json:"decoy,omitempty"`
 	Methods    []BMethod `json:"methods"`
 	FuncOn     []bool    `json:"funcOn"` // initial state of every <M>Func
 	Ops        []C04Op   `json:"ops"`
@@ -50,6 +52,13 @@ func (c04) Generate(c *Ctx) []any {
 		r := c.Rng
 		in := c04Input{StubImpl: i%2 == 1, WithResets: (i/2)%2 == 1, SkipEnsure: r.Intn(3) == 0,
 			StubLevel: pick(r, []string{"top", "package", "interface"}), ResetLevel: pick(r, []string{"top", "package", "interface"})}
+		if !in.StubImpl && r.Intn(2) == 0 {
+			in.StubLevel = "unset"
+		}
+		if !in.WithResets && r.Intn(2) == 0 {
+			in.ResetLevel = "unset"
+		}
+		in.Decoy = i%3 != 2
 		nm := 1 + r.Intn(3)
 		in.Generic = r.Intn(4) == 0
 		for k := 0; k < nm; k++ {
@@ -130,7 +139,16 @@ func c04Config(in *c04Input) string {
 		b.WriteString("        config:\n")
 		td("          ", "interface")
 	}
+	if in.Decoy {
+		y, _ := decoyPackages(c04DecoyLines(in))
+		b.WriteString(y)
+	}
 	return b.String()
+}
+
+// the decoy says the opposite of every option of the scenario
+func c04DecoyLines(in *c04Input) []string {
+	return []string{fmt.Sprintf("stub-impl: %v", !in.StubImpl), fmt.Sprintf("with-resets: %v", !in.WithResets), fmt.Sprintf("skip-ensure: %v", !in.SkipEnsure)}
 }
 
 func typesLit(ts []int) string {
